@@ -13,22 +13,39 @@ writes a breadcrumb before every step and the parent attributes the death to
 the (history, step) that was running.  A never-closed RTLD_GLOBAL decoy copy with
 the same symbol names makes an access that continues with the NULL handle
 (dlsym(NULL) = global lookup) return a value instead of failing by luck.
+
+Further input classes: a SIBLING lib object (same ffi, same file, opened separately, so
+the image stays mapped and shares the variables) that is used before and after the close
+of the main lib and must not be harmed by closing the main lib AGAIN; RTLD_NODELETE
+(image stays mapped: only the exception oracle decides); names declared in the cdef but
+missing from the library (failing accesses before the close); failing writes before the
+close; vars(lib) before / after the close; hasattr() and getattr(lib, name, default) as
+entry points for the post-close accesses; integer and struct 'static const' constants.
 """
 import os, sys, shutil, random
 from vlib import core, cc
 
 RULE = ("case = one demanded observation of a history: (mode in-line/out-of-line, post-close op in "
         "read / write / read-const / fetch-unfetched function / addressof-untouched name / close "
-        "again, name, how the name was used before the close); history = 0..25 modelled accesses "
-        "(fetch, call, read, write, element/field access, addressof, constants, dir) on a private "
-        "copy of the library, dlclose, 6..25 post-close ops; distinct = (mode, op, name, prior use); "
+        "again / vars(lib), name, how the name was used before the close); history = 0..25 modelled "
+        "accesses (fetch, call, read, write, failing write, element/field access, addressof, constants, "
+        "dir, vars, missing symbols, accesses through a sibling lib object of the same file) on a "
+        "private copy of the library, dlclose, 6..25 post-close ops (plain / hasattr / getattr-default "
+        "entry points; sibling accesses in between); distinct = (mode, op, name, prior use); "
         "non-trivial = the history used the library before closing it")
 ASSUMPTIONS = ["'raises an error' = any Exception other than SystemError/MemoryError; the types seen "
                "are counted per mode",
                "re-fetching / addressof of a name already touched before the close, integer "
                "constants and dir() after the close are outside the statement: run for survival, "
                "outcomes only counted",
-               "cdata / function objects obtained before the close are never used after it"]
+               "cdata / function objects obtained before the close are never used after it",
+               "hasattr(lib, name) == False and getattr(lib, name, default) returning the default count "
+               "as 'refused' (the access raised AttributeError inside)",
+               "vars(lib) after the close must raise or contain no library-backed name that was not "
+               "touched before the close",
+               "a sibling lib object (separately dlopen()ed on the same file) is only demanded to survive "
+               "a close-AGAIN of the main lib (usable right before it => usable right after it); what the "
+               "first close does to it is only counted"]
 PER = 20
 TIMEOUT = 900
 MAX_CRASHES = 6
@@ -44,6 +61,8 @@ int *g_ptr = g_arr;
 struct pt g_pt = {3, 4};
 struct pt g_pts[3] = {{1, 2}, {3, 4}, {5, 6}};
 const double K_DBL = 2.5;
+const int K_SI = 77;
+const struct pt K_PT = {8, 9};
 int f_add(int a, int b) { return a + b; }
 int (*g_fp)(int, int) = f_add;
 double f_half(double x) { return x / 2; }
@@ -63,6 +82,9 @@ unsigned char g_u8; unsigned long g_ul; _Bool g_bool;
 int g_arr[8]; char g_buf[16]; int *g_ptr; struct pt g_pt; struct pt g_pts[3];
 int (*g_fp)(int, int);
 static const double K_DBL;
+static const int K_SI;
+static const struct pt K_PT;
+int z_missing_fn(int); int z_missing_var;
 #define K_INT 42
 enum e { E_A, E_B = 7 };
 int f_add(int, int); double f_half(double); long long f_neg(long long);
@@ -75,6 +97,18 @@ FUNCS = ['f_add', 'f_half', 'f_neg', 'f_get_int', 'f_set_int', 'f_sum_arr', 'f_p
 SCALARS = ['g_int', 'g_ll', 'g_dbl', 'g_f', 'g_ch', 'g_sh', 'g_u8', 'g_ul', 'g_bool']
 COMPOUND = ['g_arr', 'g_buf', 'g_ptr', 'g_pt', 'g_pts', 'g_fp']
 VARS = SCALARS + COMPOUND
+CONSTS = ['K_DBL', 'K_SI', 'K_PT']          # read from the library (out-of-line only)
+MISSING_FN, MISSING_VAR = 'z_missing_fn', 'z_missing_var'   # declared, not in the library; sort last
+BADWRITES = [('g_int', 'x'), ('g_int', 2 ** 31), ('g_u8', 256), ('g_u8', -1), ('g_sh', 2 ** 15),
+             ('g_ch', b'ab'), ('g_dbl', 'x'), ('g_ll', 2 ** 63), ('g_pt', 5), ('g_ptr', 5),
+             ('g_arr', [0] * 9), ('g_ul', -1)]
+
+
+class Refused(Exception):
+    """hasattr() said False / getattr() returned the default"""
+
+
+NOTHING = object()
 INIT = {'g_int': 11, 'g_ll': -5000000000, 'g_dbl': 1.5, 'g_f': 0.25, 'g_ch': b'c', 'g_sh': -7,
         'g_u8': 200, 'g_ul': 99, 'g_bool': True}
 
@@ -166,7 +200,14 @@ class H(object):
         self.path = os.path.join(st['wd'], 'c37_%d_%d.so' % (os.getpid(), st['n']))
         shutil.copyfile(st['so'], self.path)
         flags = rnd.choice([(), (), ('RTLD_LAZY',), ('RTLD_NOW',), ('RTLD_GLOBAL', 'RTLD_NOW'),
-                            ('RTLD_LOCAL', 'RTLD_LAZY')])
+                            ('RTLD_LOCAL', 'RTLD_LAZY'), ('RTLD_NODELETE', 'RTLD_NOW')])
+        self.nodelete = 'RTLD_NODELETE' in flags
+        # a sibling: another lib object of the same ffi on the same file, opened separately
+        # (same image, same variables; the image stays mapped while the sibling is open)
+        self.sib = None
+        sib = rnd.choice([None, None, None, None, 'before', 'after'])
+        if sib == 'before':
+            self.sib = self.ffi.dlopen(self.path)
         # how the library is opened: by file name, or from a 'void *' handle that the
         # program got from the C dlopen() itself (ffi.dlclose must close that one too)
         self.how = rnd.choice(['name', 'name', 'handle'])
@@ -181,6 +222,10 @@ class H(object):
             if not h:
                 raise RuntimeError('harness: C dlopen(%r) failed' % self.path)
             self.lib = self.ffi.dlopen(h)
+            self.nodelete = False
+        if sib == 'after':
+            self.sib = self.ffi.dlopen(self.path)
+        self.failed = set()      # names whose access failed before the close (missing symbols)
         self.val = dict(INIT)
         self.arr = list(range(8))
         self.pt = {'x': 3, 'y': 4}
@@ -222,8 +267,57 @@ class H(object):
     def pre_step(self):
         rnd, ffi, lib = self.rnd, self.ffi, self.lib
         op = rnd.choice(['fetch', 'call', 'call', 'read', 'read', 'write', 'write', 'compound',
-                         'compound', 'addr', 'const', 'dir'])
-        if op == 'fetch':
+                         'compound', 'addr', 'const', 'dir', 'badwrite', 'missing', 'vars',
+                         'sibling', 'sibling'])
+        if op == 'sibling' and self.sib is None:
+            op = 'read'
+        if op == 'sibling':
+            self.sibling_step('pre')
+        elif op == 'badwrite':
+            name, v = rnd.choice(BADWRITES)
+            self.mark('pre', op, name)
+            try:
+                setattr(lib, name, v)
+                self.expect('invalid write lib.%s = %r raised' % (name, v), False, True)
+            except (TypeError, OverflowError, IndexError, ValueError):
+                pass
+            self.touch(name, 'badwrite')
+            if name in self.val:
+                self.expect('lib.%s after a refused write' % name, getattr(lib, name), self.val[name])
+            elif name == 'g_arr':
+                self.expect('list(lib.g_arr) after a refused write', list(lib.g_arr), self.arr)
+                self.touch(name, 'read')
+        elif op == 'missing':
+            name, how = rnd.choice([(MISSING_FN, 'fetch'), (MISSING_FN, 'addr'), (MISSING_VAR, 'read'),
+                                    (MISSING_VAR, 'write'), (MISSING_VAR, 'addr')])
+            self.mark('pre', op + '-' + how, name)
+            try:
+                if how in ('fetch', 'read'):
+                    getattr(lib, name)
+                elif how == 'write':
+                    setattr(lib, name, 1)
+                else:
+                    ffi.addressof(lib, name)
+                self.expect('access to the missing symbol %s raised' % name, False, True)
+            except Exception as e:
+                if isinstance(e, (SystemError, MemoryError)):
+                    raise
+            self.failed.add(name)
+        elif op == 'vars':
+            self.mark('pre', op, '-')
+            try:
+                d = vars(lib)
+                self.rep.stat('pre_vars_returned_' + self.mode)
+            except Exception as e:
+                if isinstance(e, (SystemError, MemoryError)):
+                    raise
+                d = None
+                self.rep.stat('pre_vars_raised_' + self.mode)
+            if self.mode == 'outofline':
+                # builds (= fetches and caches) every global up to the first missing symbol
+                for name in FUNCS + VARS + CONSTS:
+                    self.touch(name, 'vars')
+        elif op == 'fetch':
             name = rnd.choice(FUNCS)
             self.mark('pre', op, name)
             f = self.fetch(name)
@@ -317,17 +411,74 @@ class H(object):
             self.mark('pre', op, 'K')
             self.expect('K_INT, E_B', (lib.K_INT, lib.E_B), (42, 7))
             if self.mode == 'outofline' and rnd.random() < 0.5:
-                self.expect('K_DBL', lib.K_DBL, 2.5)
-                self.touch('K_DBL', 'read')
+                k = rnd.choice(CONSTS)
+                if k == 'K_DBL':
+                    self.expect('K_DBL', lib.K_DBL, 2.5)
+                elif k == 'K_SI':
+                    self.expect('K_SI', lib.K_SI, 77)
+                else:
+                    self.expect('K_PT', (lib.K_PT.x, lib.K_PT.y), (8, 9))
+                self.touch(k, 'read')
         else:
             self.mark('pre', op, '-')
             d = dir(lib)
             self.expect('dir(lib) has names', 'f_add' in d and 'g_int' in d, True)
         self.rep.stat('pre_' + op)
 
+    # -- the sibling lib object (never closed before the end of the history)
+    def sibling_probe(self):
+        try:
+            return self.sib.g_sh == self.val['g_sh']
+        except Exception:
+            return False
+
+    def sibling_step(self, phase):
+        rnd, sib = self.rnd, self.sib
+        what = rnd.choice(['read', 'read', 'write', 'fetch', 'addr'])
+        name = rnd.choice(FUNCS) if what == 'fetch' else rnd.choice(SCALARS)
+        self.mark(phase, 'sibling-' + what, name)
+        try:
+            if what == 'read':
+                ok = getattr(sib, name) == self.val[name]
+            elif what == 'write':
+                v = rand_value(rnd, name)
+                setattr(sib, name, v)
+                self.val[name] = v
+                ok = getattr(sib, name) == v
+            elif what == 'fetch':
+                ok = self.ffi.typeof(getattr(sib, name)).kind == 'function'
+            else:
+                p = self.ffi.addressof(sib, name)
+                ok = name == 'g_bool' or p[0] == self.val[name]
+        except Exception as e:
+            if phase == 'pre':
+                raise
+            self.rep.stat('%s:sibling_after_close_raised_%s' % (self.mode, type(e).__name__))
+            return
+        if phase == 'pre':
+            self.expect('sibling %s %s agrees with the model' % (what, name), ok, True)
+            self.rep.stat('pre_sibling_' + what)
+        else:
+            self.rep.stat('%s:sibling_after_close_%s' % (self.mode, 'ok' if ok else 'other_value'))
+
     # -- after the close
+    def entry(self, name):
+        """the post-close read / fetch of lib.<name> through one of the equivalent entry points"""
+        lib, how = self.lib, self.rnd.choice(['plain', 'plain', 'default', 'hasattr'])
+        self.rep.stat('post_entry_' + how)
+        if how == 'plain':
+            return lambda: getattr(lib, name)
+
+        def thunk():
+            r = getattr(lib, name, NOTHING) if how == 'default' else (hasattr(lib, name) or NOTHING)
+            if r is NOTHING:
+                raise Refused(how)
+            return r
+        return thunk
+
     def demand_raises(self, op, name, thunk):
-        prior = '+'.join(sorted(self.touched.get(name, ()))) or 'untouched'
+        prior = '+'.join(sorted(self.touched.get(name, ()))) or (
+            'failed' if name in self.failed else 'untouched')
         self.rep.case((self.mode, op, name, prior), nontrivial=bool(self.touched),
                       sample={'mode': self.mode, 'op': op, 'name': name, 'prior_use': prior,
                               'steps_before_close': self.nbefore})
@@ -355,6 +506,7 @@ class H(object):
     def close(self, which):
         self.mark('post', which, '-')
         self.rep.case((self.mode, which, len(self.touched) > 0), nontrivial=bool(self.touched))
+        sib_ok = which == 'close-again' and self.sib is not None and self.sibling_probe()
         try:
             r = self.ffi.dlclose(self.lib)
         except Exception as e:
@@ -363,31 +515,64 @@ class H(object):
             if r is not None:
                 self.bad(which + '-result', 'ffi.dlclose(lib) returned %r' % (r,))
             self.rep.stat('%s:%s_ok' % (self.mode, which))
+        if sib_ok:
+            # 'closing again is harmless': a lib object opened separately on the same file was
+            # usable right before the second close, so it still is (if the image was unmapped
+            # under it the probe dies: attributed through the breadcrumb)
+            self.mark('post', 'close-again-sibling-probe', 'g_sh')
+            self.rep.case((self.mode, 'close-again-sibling'), nontrivial=True)
+            if self.sibling_probe() and self.mapped():
+                self.rep.stat('%s:sibling_ok_after_close-again' % self.mode)
+            else:
+                self.bad('close-again-harmed-open-sibling', 'a lib object opened separately on the same '
+                         'file read g_sh correctly before ffi.dlclose(lib) was repeated on the closed '
+                         'lib and does not any more (image mapped: %r)' % self.mapped())
 
     def post_step(self):
         rnd, ffi, lib = self.rnd, self.ffi, self.lib
         op = rnd.choice(['read', 'read', 'write', 'write', 'fetch', 'fetch', 'addr', 'addr',
-                         'close-again', 'const', 'other'])
-        if op == 'read':
-            name = rnd.choice(VARS)
+                         'close-again', 'const', 'other', 'vars', 'sibling', 'sibling'])
+        if op == 'sibling' and self.sib is None:
+            op = 'read'
+        if op == 'sibling':
+            self.sibling_step('post')
+        elif op == 'vars':
+            self.mark('post', op, '-')
+            self.rep.case((self.mode, op, len(self.touched) > 0), nontrivial=bool(self.touched))
+            try:
+                d = vars(lib)
+            except (SystemError, MemoryError) as e:
+                self.bad('vars-after-close-wrong-exception', 'vars(lib) raised %s: %s' %
+                         (type(e).__name__, e))
+            except Exception as e:
+                self.rep.stat('%s:vars_raised_%s' % (self.mode, type(e).__name__))
+            else:
+                new = sorted(n for n in d if n in FUNCS + VARS + CONSTS + [MISSING_FN, MISSING_VAR]
+                             and n not in self.touched)
+                if new:
+                    self.bad('vars-after-close-fetched-new-names', 'vars(lib) after dlclose returned a '
+                             'dict with %r, none of which was touched before the close' % (new[:6],))
+                self.rep.stat('%s:vars_returned_nothing_new' % self.mode)
+        elif op == 'read':
+            name = rnd.choice(VARS + [MISSING_VAR])
             self.mark('post', op, name)
-            self.demand_raises(op, name, lambda: getattr(lib, name))
+            self.demand_raises(op, name, self.entry(name))
         elif op == 'write':
-            name = rnd.choice(VARS)
-            v = rand_value(rnd, name)
+            name = rnd.choice(VARS + [MISSING_VAR])
+            v = 1 if name == MISSING_VAR else rand_value(rnd, name)
             if v is None:
                 v = ffi.NULL
             self.mark('post', op, name)
             self.demand_raises(op, name, lambda: setattr(lib, name, v))
         elif op == 'fetch':
-            name = rnd.choice(FUNCS)
+            name = rnd.choice(FUNCS + [MISSING_FN])
             self.mark('post', op, name)
             if name in self.touched:
                 self.survive('refetch', lambda: getattr(lib, name))
             else:
-                self.demand_raises(op, name, lambda: getattr(lib, name))
+                self.demand_raises(op, name, self.entry(name))
         elif op == 'addr':
-            name = rnd.choice(FUNCS + VARS)
+            name = rnd.choice(FUNCS + VARS + [MISSING_FN, MISSING_VAR])
             self.mark('post', op, name)
             if name in self.touched:
                 self.survive('addressof-touched', lambda: ffi.addressof(lib, name))
@@ -396,8 +581,9 @@ class H(object):
         elif op == 'close-again':
             self.close(op)
         elif op == 'const' and self.mode == 'outofline':
-            self.mark('post', 'read-const', 'K_DBL')
-            self.demand_raises('read-const', 'K_DBL', lambda: lib.K_DBL)
+            name = rnd.choice(CONSTS)
+            self.mark('post', 'read-const', name)
+            self.demand_raises('read-const', name, self.entry(name))
         else:
             self.mark('post', 'other', '-')
             self.survive('int-constant', lambda: (lib.K_INT, lib.E_B))
@@ -413,9 +599,20 @@ class H(object):
         self.rep.stat('histories_' + self.mode)
         self.rep.stat('histories_opened_by_' + self.how)
         self.rep.stat('lib_unmapped_by_close' if was_mapped and not self.mapped() else
+                      'lib_kept_mapped_by_open_sibling' if self.sib is not None else
+                      'lib_kept_mapped_by_RTLD_NODELETE' if self.nodelete else
                       'lib_still_mapped_after_close')
+        if self.sib is not None:
+            self.rep.stat('histories_with_sibling_' + self.mode)
         for _ in range(self.rnd.randint(6, 25)):
             self.post_step()
+        if self.sib is not None:
+            # closed explicitly: an in-line ffi keeps its lib objects alive for ever
+            self.mark('post', 'sibling-close', '-')
+            self.ffi.dlclose(self.sib)
+            self.sib = None
+            for _ in range(self.rnd.randint(0, 3)):
+                self.post_step()
         self.mark('post', 'drop', '-')
         self.lib = None
 
